@@ -112,15 +112,20 @@ ImportTarget(lvl, m) ==
 \* getProcessedModule(q) would process q now
 NeedEnsure(q) == LET t == Get(st, q) IN IsMod(t) /\ mstate[ModIdx(t)] = "UNPROCESSED"
 EnsureTargets == IF Op.k = "star" THEN <<ImportTarget(Op.lvl, Op.m)>>
+                 ELSE IF Op.k = "import" THEN <<[j \in 1..Len(Op.m) |-> P(Op.m[j])]>>      \* visit_Import looks at the module too
                  ELSE LET q == ImportTarget(Op.lvl, Op.m) IN
                       <<q>> \o (IF IsMod(Get(st, q)) /\ Cls(st, Get(st, q)) = "Package" THEN <<Append(q, P(Op.orig))>> ELSE <<>>)
 FirstNeeded == LET ts == EnsureTargets
                    idx == {k \in 1..Len(ts) : ts[k] # <<>> /\ NeedEnsure(ts[k])}
                IN IF idx = {} THEN <<>> ELSE ts[CHOOSE k \in idx : \A j \in idx : k <= j]
 
-\* getProcessedModule on an UNPROCESSED module: processModule(mod) right now, inside the import statement
-OnDemand == /\ InBody /\ Op.k \in {"from", "star"} /\ FirstNeeded # <<>>
-            /\ LET t == ModIdx(Get(st, FirstNeeded)) IN
+\* getProcessedModule on an UNPROCESSED module: like the interpreter, the __init__ of its enclosing packages runs first
+\* (outermost unprocessed one), then processModule(mod) right now, inside the import statement
+RECURSIVE Outermost(_)
+Outermost(t) == LET pp == Mod(t).par IN
+                IF pp # 0 /\ mstate[pp] = "UNPROCESSED" THEN Outermost(pp) ELSE t
+OnDemand == /\ InBody /\ Op.k \in {"from", "star", "import"} /\ FirstNeeded # <<>>
+            /\ LET t == Outermost(ModIdx(Get(st, FirstNeeded))) IN
                  /\ unproc' = SelectSeq(unproc, LAMBDA x : x # t)
                  /\ mstate' = [mstate EXCEPT ![t] = "PROCESSING"]
                  /\ IF Mod(t).broken
@@ -162,8 +167,9 @@ ExecStar == /\ InBody /\ Op.k = "star" /\ FirstNeeded = <<>>
                   ELSE st' = BindStar(st, q, m, StarNames(st, m), 1)
             /\ Advance /\ UNCHANGED <<mobj, mstate, unproc, classes, phase, log, post>>
 
-\* visit_Import: `import a.b.c` binds a -> a ; `import a.b.c as x` binds x -> a.b.c ; nothing is processed
-ExecImport == /\ InBody /\ Op.k = "import"
+\* visit_Import: the imported module is analysed first (getProcessedModule); `import a.b.c` binds a -> a ;
+\* `import a.b.c as x` binds x -> a.b.c
+ExecImport == /\ InBody /\ Op.k = "import" /\ FirstNeeded = <<>>
               /\ st' = IF Op.as = "" THEN SetAlias(st, Cur, Op.m[1], <<P(Op.m[1])>>)
                        ELSE SetAlias(st, Cur, Op.as, [j \in 1..Len(Op.m) |-> P(Op.m[j])])
               /\ Advance /\ UNCHANGED <<mobj, mstate, unproc, classes, phase, log, post>>
